@@ -176,10 +176,7 @@ theorem linkNames_length (cs : Classes) (st : Names) (ps : List DPort) : (linkNa
 def bodyExporter (dfuel fuel : Nat) : Json → Except Err Region := fun j =>
   match Serial.loadJson (Serial.opsCodec dfuel) j with
   | .error e => .error (.load e)
-  | .ok s' =>
-    match exportModuleWith (fun cs' s'' => exportNode dfuel fuel cs' s'') s' with
-    | .error e => .error e
-    | .ok m => .ok m.root
+  | .ok s' => exportBodyWith (fun cs' s'' => exportNode dfuel fuel cs' s'') s'
 
 /-- What a successful `export_node` call did. -/
 theorem exportNode_ok {dfuel fuel : Nat} {cs : Classes} {s : St} {st st' : Names} {n : Nat} {r : Option Node}
